@@ -53,7 +53,7 @@ def fd_gradient(f, x, coords):
     for k in coords:
         h = 1e-3 * (1 + abs(x[k]))
         d = []
-        for hh in (h, h / 2):
+        for hh in (h, h / 2, h / 4):
             xp, xm = x.copy(), x.copy()
             xp[k] += hh
             xm[k] -= hh
@@ -68,7 +68,14 @@ def fd_gradient(f, x, coords):
         # value and an estimate of its own error (difference of the two
         # step sizes): badly scaled functions give a wide margin, never an
         # alarm
-        out[k] = ((4 * d[1] - d[0]) / 3, abs(d[1] - d[0]))
+        r1 = (4 * d[1] - d[0]) / 3
+        r2 = (4 * d[2] - d[1]) / 3
+        if abs(r1 - r2) > 1e-4 * abs(r2) + 1e-9:
+            # the two extrapolations disagree: the function is too badly
+            # scaled around this point for differencing to say anything
+            out[k] = None
+            continue
+        out[k] = (r2, abs(r1 - r2) + abs(d[2] - d[1]) * 1e-2)
     return out
 
 
@@ -224,7 +231,11 @@ def run(scenario, world):
                     fd = fd_gradient(obj, x, sorted(set(coords)))
                     world.faults_enabled = True
                     scale = 1 + np.max(np.abs(g))
-                    for kk, (v, err) in fd.items():
+                    for kk, pair in fd.items():
+                        if pair is None:
+                            world.probe('fd_unreliable_skipped')
+                            continue
+                        v, err = pair
                         n_fd += 1
                         if abs(v - g[kk]) > tol_fd * scale + 1e-7 + 4 * err:
                             raise Violation(
